@@ -91,6 +91,11 @@ def worker(i, q):
             subprocess.run('git reset -q; git checkout -q -- .; git clean -fdq', shell=True, cwd=scratch)
             continue
         c = subprocess.run([os.path.join(VERIF, 'check'), m['property'], '--tier', 'quick'], env=env, stdout=subprocess.PIPE, stderr=subprocess.STDOUT, text=True)
+        if 'VIOLATION property=' not in c.stdout and ('[pvx] %s quick:' % m['property']) not in c.stdout:
+            # not a verdict (an infrastructure hiccup under parallel load): say what happened, then once more
+            with lock:
+                print('%-28s no verdict (exit %d): %s -- retrying' % (name, c.returncode, c.stdout.strip()[-300:].replace('\n', ' | ')), flush=True)
+            c = subprocess.run([os.path.join(VERIF, 'check'), m['property'], '--tier', 'quick'], env=env, stdout=subprocess.PIPE, stderr=subprocess.STDOUT, text=True)
         fired = [l.strip() for l in c.stdout.splitlines() if l.startswith('  C')]
         caught = 'VIOLATION property=' in c.stdout
         with lock:
